@@ -445,8 +445,11 @@ type lastSegInfo struct {
 }
 
 // availabilityTime returns the availability time of the last segment given ato.
+// The segment end is rounded up to a whole millisecond (the resolution of request times),
+// so that the time is never later than a request that sees the segment.
 func (l lastSegInfo) availabilityTime(ato float64) float64 {
-	return math.Round(float64(l.startTime+l.dur)/float64(l.timescale)) - ato
+	endMS := ((l.startTime+l.dur)*1000 + l.timescale - 1) / l.timescale
+	return float64(endMS)/1000 - ato
 }
 
 // generateTimelineEntries generates timeline entries for the given representation.
